@@ -46,3 +46,19 @@ Definition check_params (C B A : Z) : bool :=
   Gen_MemPoolConst.CheckBlockCount C && Gen_MemPoolConst.CheckBlockAlignment A && (0 <? B)
   && ((C =? 1) || (B mod A =? 0)) && ((C =? 1) || (2 <=? B / A))
   && negb (B >? 18446744073709551615 / C).
+
+(* the three-way choice of Allocate (297-302) and pvDeleteBlock(void* ) (472-477) for blockCount = 1:
+   alignment addend 0 -> the manager block itself (pvGetBufferSize0 bytes), else pvNewBlock1 / pvDeleteBlock1.
+   alloc1 returns (block, size requested from the manager); dealloc1 returns (address, size) given back.
+   The choice inside pvDeleteBlock(void* ) is also machine-translated (Gen_MemPool.pvDeleteBlock_dispatch: 1/2/3). *)
+Definition alloc1 (B A begin : Z) : outcome (Z * Z) :=
+  if Gen_MemPool.pvGetAlignmentAddend B A =? 0                                             (* 299 *)
+  then Ok (begin, Gen_MemPool.pvGetBufferSize0 B A)                                        (* 300 *)
+  else match Gen_MemPool.pvNewBlock1 B A begin with                                        (* 302 *)
+       | Ok block => Ok (block, Gen_MemPool.pvGetBufferSize1 B A)
+       | Stuck => Stuck | Fuel => Fuel | Exn => Exn
+       end.
+Definition dealloc1 (ld : Z -> Z) (B A block : Z) : Z * Z :=
+  if Gen_MemPool.pvGetAlignmentAddend B A =? 0                                             (* 474 *)
+  then (block, Gen_MemPool.pvGetBufferSize0 B A)                                           (* 475 *)
+  else (snd (Gen_MemPool.pvDeleteBlock1 ld B A block), Gen_MemPool.pvGetBufferSize1 B A).  (* 477, 511 *)
